@@ -233,6 +233,29 @@ enum Level {
     Full,
     /// owned / shared / ctxt / thread: numbers, booleans, strings, structured values
     Buffered,
+    /// properties of a span (`#[emit::span]`, `new_span!`): they live in the span's context frame,
+    /// so they are read buffered, but Display / Debug text is still what the capture mode promises
+    SpanText,
+}
+
+thread_local! {
+    /// what the process-wide runtime's emitter (the only one `dbg!` can use) saw on this thread
+    static GLOBAL_SEEN: std::cell::RefCell<Vec<Option<Obs>>> = const { std::cell::RefCell::new(Vec::new()) };
+}
+
+/// The emitter of the process-wide runtime; `dbg!` always emits there, on the caller's thread.
+struct GlobalObsEmitter;
+
+impl Emitter for GlobalObsEmitter {
+    fn emit<E: emit::event::ToEvent>(&self, evt: E) {
+        let evt = evt.to_event();
+        let o = evt.props().get("val").map(observe);
+        GLOBAL_SEEN.with(|s| s.borrow_mut().push(o));
+    }
+
+    fn blocking_flush(&self, _: Duration) -> bool {
+        true
+    }
 }
 
 #[derive(Clone, Default)]
@@ -264,6 +287,14 @@ struct Driver<'a> {
     direct_serde: Result<String, String>,
     direct_sval: Result<String, String>,
     threads: bool,
+    /// two stacked capture attributes: the value must keep the promise of one of the two modes
+    alt: Option<(Cap, Expect)>,
+    /// selects which of several equivalent call sites (level macro, dbg! form) this case uses
+    variant: u64,
+    /// `Some`: violations are collected here instead of being reported
+    collect: Option<Vec<String>>,
+    /// the known sval-seq finding seen while collecting (it does not decide which stacked mode holds)
+    pending_known: Vec<String>,
 }
 
 fn f64_same(a: f64, b: f64) -> bool {
@@ -282,10 +313,18 @@ impl<'a> Driver<'a> {
         );
         let direct_serde = serde_json::to_string(model).map_err(|e| e.to_string());
         let direct_sval = sval_json::stream_to_string(model).map_err(|e| e.to_string());
-        Driver { r, site, cap, model, exp, case, rt, emitter, direct_serde, direct_sval, threads }
+        Driver { r, site, cap, model, exp, case, rt, emitter, direct_serde, direct_sval, threads, alt: None, variant: 0, collect: None, pending_known: Vec::new() }
     }
 
     fn violation(&mut self, path: &str, what_sig: &str, what: String) {
+        if let Some(c) = self.collect.as_mut() {
+            if what_sig == KNOWN_SEQ {
+                self.pending_known.push(what);
+            } else {
+                c.push(format!("{}: {}", what_sig, what));
+            }
+            return;
+        }
         let sig = if what_sig == KNOWN_SEQ {
             KNOWN_SEQ.to_string()
         } else {
@@ -310,6 +349,52 @@ impl<'a> Driver<'a> {
 
     fn check_obs(&mut self, path: &str, obs: Option<Obs>, level: Level) {
         let exp = self.exp.clone();
+        self.check_exp(path, obs, level, exp);
+    }
+
+    /// Check against `exp`; with stacked attributes, against either mode's promise.
+    fn check_exp(&mut self, path: &str, obs: Option<Obs>, level: Level, exp: Expect) {
+        let (alt_cap, alt_exp) = match self.alt.clone() {
+            None => return self.check_one(path, obs, level, exp),
+            Some(a) => a,
+        };
+        self.collect = Some(Vec::new());
+        self.pending_known.clear();
+        self.check_one(path, obs.clone(), level, exp);
+        let first = self.collect.take().unwrap();
+        if first.is_empty() {
+            self.r.observe("stacked:first-listed-attribute-wins", 1);
+            for k in std::mem::take(&mut self.pending_known) {
+                self.violation(path, KNOWN_SEQ, k);
+            }
+            return;
+        }
+        self.pending_known.clear();
+        let cap = self.cap;
+        self.cap = alt_cap;
+        self.collect = Some(Vec::new());
+        self.check_one(path, obs, level, alt_exp);
+        let second = self.collect.take().unwrap();
+        self.cap = cap;
+        if second.is_empty() {
+            self.r.observe("stacked:last-listed-attribute-wins", 1);
+            for k in std::mem::take(&mut self.pending_known) {
+                self.violation(path, KNOWN_SEQ, k);
+            }
+            return;
+        }
+        self.pending_known.clear();
+        let sig = format!("C19:stacked:{}+{}:{}:{}:neither-mode", cap.name(), alt_cap.name(), self.model.shape(), path_class(path));
+        let mut case = self.case.clone();
+        case["path"] = json!(path);
+        self.r.violation(
+            &sig,
+            &format!("site {} path {}: the value keeps the promise of neither stacked capture mode — as {}: {}; as {}: {}", self.site, path, cap.name(), clip(&first.join(" | ")), alt_cap.name(), clip(&second.join(" | "))),
+            case,
+        );
+    }
+
+    fn check_one(&mut self, path: &str, obs: Option<Obs>, level: Level, exp: Expect) {
         let obs = match (exp.present, obs) {
             (false, None) => {
                 self.r.observe("check:none-adds-no-key", 1);
@@ -372,19 +457,20 @@ impl<'a> Driver<'a> {
                 }
             }
         }
-        let constrained_text = level == Level::Full || exp.typed.is_some();
+        let constrained_text = level != Level::Buffered || exp.typed.is_some();
         if let (Some(want), true) = (&exp.text, constrained_text) {
             self.r.observe("check:text", 1);
             if &obs.display != want {
                 self.violation(path, "text", format!("to_string() = {:?}, original's = {:?}", clip(&obs.display), clip(want)));
             }
         }
-        if let (Some((want, want_alt)), Level::Full) = (&exp.debug, level) {
+        if let (Some((want, want_alt)), true) = (&exp.debug, level != Level::Buffered) {
             self.r.observe("check:debug", 1);
             if &obs.debug != want {
                 self.violation(path, "debug", format!("{{:?}} = {:?}, original's = {:?}", clip(&obs.debug), clip(want)));
             }
-            if &obs.debug_alt != want_alt {
+            // the alternate form is only promised where the value is not buffered into text
+            if level == Level::Full && &obs.debug_alt != want_alt {
                 self.violation(path, "debug-alt", format!("{{:#?}} = {:?}, original's = {:?}", clip(&obs.debug_alt), clip(want_alt)));
             }
         }
@@ -472,12 +558,12 @@ impl<'a> Driver<'a> {
             self.check("erased", erased.props().get("val"), Level::Full);
         }
         // typed pull straight off the props (`Props::pull`) for the commonest types
-        if let Some(M::I64(x)) = &self.exp.typed {
+        if let (Some(M::I64(x)), None) = (&self.exp.typed, &self.alt) {
             if evt.props().pull::<i64, _>("val") != Some(*x) {
                 self.violation("direct", "props-pull", format!("Props::pull::<i64> != {}", x));
             }
         }
-        if let Some(M::Str(x)) = &self.exp.typed {
+        if let (Some(M::Str(x)), None) = (&self.exp.typed, &self.alt) {
             if evt.props().pull::<&str, _>("val") != Some(x.as_str()) && self.cap != Cap::Value {
                 self.violation("direct", "props-pull", format!("Props::pull::<&str> != {:?}", x));
             }
@@ -495,7 +581,7 @@ impl<'a> Driver<'a> {
                             let r = ov.by_ref();
                             serde_json::to_string(ov).map_err(|e| e.to_string()) == serde_json::to_string(&r).map_err(|e| e.to_string())
                                 && sval_json::stream_to_string(ov).map_err(|e| e.to_string()) == sval_json::stream_to_string(&r).map_err(|e| e.to_string())
-                                && (self.exp.chain.is_some() || ov.to_string() == r.to_string())
+                                && (self.exp.chain.is_some() || self.alt.as_ref().map_or(false, |a| a.1.chain.is_some()) || ov.to_string() == r.to_string())
                                 && format!("{:?}", ov) == format!("{:?}", r)
                         });
                         self.r.observe("check:owned-own-impls", 1);
@@ -559,6 +645,69 @@ impl<'a> Driver<'a> {
         &self.rt
     }
 
+    /// After a level macro (`info!`, `warn!`, …) through the recording runtime.
+    fn emitted_level(&mut self, name: &str) {
+        let seen: Vec<Option<Obs>> = std::mem::take(&mut *self.emitter.0.lock().unwrap());
+        self.r.observe(&format!("path:level-macro:{}", name), seen.len() as u64);
+        if seen.len() != 1 {
+            self.violation("level-macro", "not-emitted", format!("{}! reached the emitter {} times", name, seen.len()));
+            return;
+        }
+        for o in seen {
+            self.check_obs("level-macro", o, Level::Full);
+        }
+    }
+
+    /// After `emit::dbg!(..)`: what the process-wide runtime's emitter saw on this thread.
+    /// `dbg!` captures with Debug unless the property carries a capture attribute.
+    fn emitted_dbg(&mut self, form: &str) {
+        let seen: Vec<Option<Obs>> = GLOBAL_SEEN.with(|s| std::mem::take(&mut *s.borrow_mut()));
+        self.r.observe(&format!("path:dbg:{}", form), seen.len() as u64);
+        if seen.len() != 1 {
+            self.violation("dbg", "not-emitted", format!("dbg! reached the emitter {} times", seen.len()));
+            return;
+        }
+        let mut exp = self.exp.clone();
+        if self.cap == Cap::Default && self.alt.is_none() {
+            if self.site == "default_str" || self.site == "optional_str" {
+                // a `str` place: dbg! stores the string itself; its text is not settled
+                self.r.observe("dbg:str-unconstrained", 1);
+                return;
+            }
+            let present = exp.present;
+            exp = expectation(Cap::Debug, self.model);
+            exp.present = present;
+            let cap = self.cap;
+            self.cap = Cap::Debug;
+            for o in seen {
+                self.check_exp("dbg", o, Level::Full, exp.clone());
+            }
+            self.cap = cap;
+            return;
+        }
+        for o in seen {
+            self.check_exp("dbg", o, Level::Full, exp.clone());
+        }
+    }
+
+    /// After a span (`#[emit::span]` / `new_span!`) completed: `inner` is what the span's context
+    /// showed inside it, the emitter saw the span event.
+    fn emitted_span(&mut self, kind: &str, inner: Result<Option<Obs>, String>) {
+        let seen: Vec<Option<Obs>> = std::mem::take(&mut *self.emitter.0.lock().unwrap());
+        self.r.observe(&format!("path:{}", kind), 1 + seen.len() as u64);
+        match inner {
+            Ok(o) => self.check_obs(kind, o, Level::SpanText),
+            Err(p) => self.violation(kind, "panic", format!("reading the span's context panicked: {}", p)),
+        }
+        if seen.len() != 1 {
+            self.violation(kind, "not-emitted", format!("the span event reached the emitter {} times", seen.len()));
+            return;
+        }
+        for o in seen {
+            self.check_obs(kind, o, Level::SpanText);
+        }
+    }
+
     /// After `emit::emit!(rt: ..)`: what the emitter saw.
     fn emitted(&mut self) {
         let seen: Vec<Option<Obs>> = std::mem::take(&mut *self.emitter.0.lock().unwrap());
@@ -604,9 +753,12 @@ struct Site {
     class: &'static str,
     /// the value the expectation is computed from, given the generated model
     run: fn(&M, &mut Driver),
+    /// the second of two stacked capture attributes (the first is `cap`)
+    alt: Option<Cap>,
 }
 
 /// A user type whose `ToValue` goes through serde.
+#[derive(Debug)]
 struct ViaSerde(M);
 
 impl emit::value::ToValue for ViaSerde {
@@ -615,10 +767,14 @@ impl emit::value::ToValue for ViaSerde {
     }
 }
 
+fn read_ctxt(rt: &Rt) -> Result<Option<Obs>, String> {
+    catch(|| emit::Ctxt::with_current(rt.ctxt(), |cur| cur.get("val").map(observe)))
+}
+
 macro_rules! sites {
-    ($( $name:ident : $cap:expr, $class:literal, |$m:ident, $val:ident| $t:ty = $extract:expr => [$($attr:tt)*] $vexpr:expr ;)*) => {
+    ($( $name:ident : $cap:expr $(, alt $alt:expr)?, $class:literal, |$m:ident, $val:ident| $t:ty = $extract:expr => [$($attr:tt)*] $vexpr:expr ;)*) => {
         $(
-            #[allow(unused_variables, unreachable_patterns)]
+            #[allow(unused_variables, unreachable_patterns, unused_mut)]
             fn $name(model: &M, d: &mut Driver) {
                 let $m = model;
                 let owned: $t = $extract;
@@ -636,9 +792,67 @@ macro_rules! sites {
                     emit::emit!(rt, "site {n}", n: 2, $($attr)* val: $vexpr);
                     d.emitted();
                 }
+                // the level macros
+                match d.variant % 4 {
+                    0 => {
+                        let rt = d.runtime();
+                        emit::debug!(rt, "site debug", $($attr)* val: $vexpr);
+                        d.emitted_level("debug");
+                    }
+                    1 => {
+                        let rt = d.runtime();
+                        emit::info!(rt, "site info {n}", n: 3, $($attr)* val: $vexpr);
+                        d.emitted_level("info");
+                    }
+                    2 => {
+                        let rt = d.runtime();
+                        emit::warn!(rt, "site warn", $($attr)* val: $vexpr, n: 4);
+                        d.emitted_level("warn");
+                    }
+                    _ => {
+                        let rt = d.runtime();
+                        emit::error!(rt, "site error", $($attr)* val: $vexpr);
+                        d.emitted_level("error");
+                    }
+                }
+                // dbg! (always the process-wide runtime): alone, among other values, with a template
+                match (d.variant / 4) % 3 {
+                    0 => {
+                        emit::dbg!($($attr)* val: $vexpr);
+                        d.emitted_dbg("single");
+                    }
+                    1 => {
+                        emit::dbg!(first: 1, $($attr)* val: $vexpr, #[emit::as_display] last: "z");
+                        d.emitted_dbg("several");
+                    }
+                    _ => {
+                        emit::dbg!("site dbg {n}", n: 5, $($attr)* val: $vexpr);
+                        d.emitted_dbg("template");
+                    }
+                }
+                // span arguments
+                {
+                    #[emit::span(rt, "site span", $($attr)* val: $vexpr)]
+                    fn spanned(rt: &Rt, $val: &$t) -> Result<Option<Obs>, String> {
+                        read_ctxt(rt)
+                    }
+                    let inner = spanned(d.runtime(), $val);
+                    d.emitted_span("span-attribute", inner);
+                }
+                {
+                    let inner = {
+                        let rt = d.runtime();
+                        let (mut guard, frame) = emit::new_span!(rt, "site new_span", $($attr)* val: $vexpr);
+                        frame.call(move || {
+                            guard.start();
+                            read_ctxt(rt)
+                        })
+                    };
+                    d.emitted_span("new_span", inner);
+                }
             }
         )*
-        const SITES: &[Site] = &[ $( Site { name: stringify!($name), cap: $cap, class: $class, run: $name } ),* ];
+        const SITES: &[Site] = &[ $( Site { name: stringify!($name), cap: $cap, class: $class, run: $name, alt: { let a: Option<Cap> = None; $(let a = Some($alt);)? a } } ),* ];
     };
 }
 
@@ -735,6 +949,19 @@ sites! {
     optional_debug: Cap::Debug, "opt:model", |m, v| Option<M> = opt_of(m).cloned() => [#[emit::optional] #[emit::as_debug]] v.as_ref();
     optional_display: Cap::Display, "opt:model", |m, v| Option<M> = opt_of(m).cloned() => [#[emit::as_display] #[emit::optional]] v.as_ref();
     optional_error: Cap::Error, "opt:error", |m, v| Option<ModelError> = opt_of(m).map(|x| match x { M::Error(e) => e.clone(), _ => unreachable!() }) => [#[emit::optional] #[emit::as_error]] v.as_ref();
+    // ---- two stacked capture attributes: one of the two modes must hold, never a third
+    stacked_debug_display: Cap::Debug, alt Cap::Display, "structured", |m, v| M = m.clone() => [#[emit::as_debug] #[emit::as_display]] *v;
+    stacked_display_debug: Cap::Display, alt Cap::Debug, "structured", |m, v| M = m.clone() => [#[emit::as_display] #[emit::as_debug]] *v;
+    stacked_serde_debug: Cap::Serde, alt Cap::Debug, "structured", |m, v| M = m.clone() => [#[emit::as_serde] #[emit::as_debug]] *v;
+    stacked_debug_sval: Cap::Debug, alt Cap::Sval, "structured", |m, v| M = m.clone() => [#[emit::as_debug] #[emit::as_sval]] *v;
+    stacked_sval_serde: Cap::Sval, alt Cap::Serde, "structured", |m, v| M = m.clone() => [#[emit::as_sval] #[emit::as_serde]] *v;
+    stacked_display_serde: Cap::Display, alt Cap::Serde, "structured", |m, v| M = m.clone() => [#[emit::as_display] #[emit::as_serde]] *v;
+    stacked_value_debug: Cap::Value, alt Cap::Debug, "i64", |m, v| i64 = prim!(m, I64) => [#[emit::as_value] #[emit::as_debug]] *v;
+    stacked_debug_value: Cap::Debug, alt Cap::Value, "str", |m, v| String = prim!(m, Str) => [#[emit::as_debug] #[emit::as_value]] *v;
+    stacked_error_display: Cap::Error, alt Cap::Display, "error", |m, v| ModelError = match m { M::Error(e) => e.clone(), _ => unreachable!() } => [#[emit::as_error] #[emit::as_display]] *v;
+    stacked_display_error: Cap::Display, alt Cap::Error, "error", |m, v| ModelError = match m { M::Error(e) => e.clone(), _ => unreachable!() } => [#[emit::as_display] #[emit::as_error]] *v;
+    stacked_inspect_debug: Cap::DisplayInspect, alt Cap::Debug, "i32", |m, v| i32 = prim!(m, I32) => [#[emit::as_display(inspect: true)] #[emit::as_debug]] *v;
+    stacked_optional_debug_serde: Cap::Debug, alt Cap::Serde, "opt:structured", |m, v| Option<M> = opt_of(m).cloned() => [#[emit::optional] #[emit::as_debug] #[emit::as_serde]] v.as_ref();
 }
 
 // ---------------------------------------------------------------------------
@@ -795,7 +1022,17 @@ fn run_case(r: &mut Report, seed: u64, i: u64, threads: bool) {
         let c = case.clone();
         r.sample(move || c);
     }
+    let alt = site.alt.map(|c| {
+        let mut e = expectation(c, &seen);
+        e.present = present;
+        (c, e)
+    });
+    if site.alt.is_some() {
+        r.observe("stacked:cases", 1);
+    }
     let mut d = Driver::new(r, site.name, site.cap, &seen, exp, case, threads && i % 2 == 0);
+    d.alt = alt;
+    d.variant = i / SITES.len() as u64;
     let run = site.run;
     if let Err(p) = catch(|| run(&model, &mut d)) {
         d.violation("site", "panic", format!("the call site panicked: {}", p));
@@ -840,6 +1077,8 @@ fn main() {
     );
     let seed = args.seed;
     let threads = !args.get("no-threads").is_some();
+    // `dbg!` can only use the process-wide runtime
+    let _global = emit::setup().emit_to(GlobalObsEmitter).with_clock(FakeClock::new(1_700_000_000_000_000_000)).with_rng(CountingRng::new()).try_init();
     r.set("sites", json!(SITES.len()));
 
     if let Some(path) = &args.replay {
